@@ -45,6 +45,19 @@ pub fn migrate(from: &Path, mut to: Options, overwrite: bool, force_migrate: &[u
 	source_options.salt = Some(source_meta.salt);
 	source_options.columns = source_meta.columns;
 
+	// Hashed keys and table entries are carried over as they are: the destination has to be in
+	// the format version of the source.
+	match Options::load_metadata(&to.path)? {
+		Some(dest_meta) =>
+			if dest_meta.version != source_meta.version {
+				return Err(Error::Migration("Source and dest format version mismatch".into()))
+			},
+		None => {
+			try_io!(std::fs::create_dir_all(&to.path));
+			to.write_metadata_with_version(&to.path, &source_meta.salt, Some(source_meta.version))?;
+		},
+	}
+
 	let mut source = Db::open(&source_options)?;
 	let mut dest = Db::open_or_create(&to)?;
 
@@ -136,7 +149,11 @@ pub fn migrate(from: &Path, mut to: Options, overwrite: bool, force_migrate: &[u
 			move_column(c, &to.path, from)?;
 			source_options.columns[c as usize] = to.columns[c as usize].clone();
 			source_options
-				.write_metadata(from, &to.salt.expect("Migrate requires salt"))
+				.write_metadata_with_version(
+					from,
+					&to.salt.expect("Migrate requires salt"),
+					Some(source_meta.version),
+				)
 				.map_err(|e| {
 					Error::Migration(format!(
 						"Error {e:?}\nFail updating metadata of column {c:?} \
